@@ -5,6 +5,7 @@ import (
 	"bytes"
 	"context"
 	"fmt"
+	"github.com/arr-ai/arrai/pkg/importcache"
 	"io"
 	"net/http"
 	"os"
@@ -72,6 +73,7 @@ func c15setup(dirs []string) (*c15env, error) {
 type c15cfg struct {
 	name, cwd, path string
 	out             string // non-empty: bundle through BundledScriptsTo's out parameter and read the file back
+	warm            bool   // evaluate the script from source first, with the SAME context (carrying an import cache), then bundle
 }
 
 type c15got struct {
@@ -179,6 +181,14 @@ func c15bundle(fs afero.Fs, cfg c15cfg) (_ []byte, err error) {
 		}
 	}()
 	ctx := c15ctx(fs)
+	if cfg.warm {
+		// an embedding host that evaluated the script and then bundles it with the same context:
+		// the archive must not depend on what the context's import cache already holds
+		ctx = importcache.WithNewImportCache(ctx)
+		if buf, rerr := afero.ReadFile(ctxfs.SourceFsFrom(ctx), cfg.path); rerr == nil {
+			_, _ = syntax.EvaluateExpr(ctx, cfg.path, string(buf))
+		}
+	}
 	if cfg.out != "" {
 		if err := bundle.BundledScriptsTo(ctx, cfg.path, io.Discard, cfg.out); err != nil {
 			return nil, err
@@ -348,6 +358,7 @@ func checkC15(w *core.W) {
 				// quick tier: the multi-file families use the absolute and the most indirect spelling only
 				cfgs, runCwds = cfgs[:2], runCwds[:2]
 			}
+			cfgs = append(cfgs, c15cfg{name: "abs-after-eval-on-same-context", cwd: env.outside, path: mainAbs, warm: true})
 
 			// ---- evaluation from source
 			var srcKey string
@@ -508,7 +519,7 @@ func c15short(s string) string {
 
 var C15 = core.Check{
 	ID: "C15", Level: "exploration", Fn: checkC15, Watchdog: 120 * time.Second,
-	Rule: "all source trees of six families over the directory universe {/, a, 'a b', a/b} (thorough: + a/'a b') with go.mod sentinels at every subset of {/, a, a/b} (thorough: {/, a, 'a b', a/b}) and main.arrai in every directory: F0 go.mod content variants; F1 one import (every relative and root-relative edge x 10 target kinds/spellings: .arrai with/without extension, lexical detour, function, failing script, json implicit/explicit decoder, yaml, missing file); F2 chains main->x->leaf; F3 two imports incl. the same file by two spellings and diamonds; F4 chains of three; F5 ten exotic directory names (non-ASCII, quotes, backslash, tab, NBSP, zero-width space, control character, Latin-1 byte) as main directory or import target; each evaluated from source and bundled under 4 (cwd, main-path spelling) configurations (the worker really chdirs) and each distinct archive run from 3 cwds (quick tier, families F2-F4: 2 configurations and 2 cwds); all outcomes compared with the reference model of import resolution; non-trivial = at least one import resolves to an existing file (the host->archive path mapping is exercised)",
+	Rule: "all source trees of six families over the directory universe {/, a, 'a b', a/b} (thorough: + a/'a b') with go.mod sentinels at every subset of {/, a, a/b} (thorough: {/, a, 'a b', a/b}) and main.arrai in every directory: F0 go.mod content variants; F1 one import (every relative and root-relative edge x 10 target kinds/spellings: .arrai with/without extension, lexical detour, function, failing script, json implicit/explicit decoder, yaml, missing file); F2 chains main->x->leaf; F3 two imports incl. the same file by two spellings and diamonds; F4 chains of three; F5 ten exotic directory names (non-ASCII, quotes, backslash, tab, NBSP, zero-width space, control character, Latin-1 byte) as main directory or import target; each evaluated from source and bundled under 4 (cwd, main-path spelling) configurations plus once after evaluating the script with the same context (warm import cache) (the worker really chdirs) and each distinct archive run from 3 cwds (quick tier, families F2-F4: 2 configurations and 2 cwds); all outcomes compared with the reference model of import resolution; non-trivial = at least one import resolves to an existing file (the host->archive path mapping is exercised)",
 	Assume: []string{
 		"the recording wrapper over afero.MemMapFs resolves relative names against the process working directory exactly as afero.OsFs does",
 		"cmd/arrai (package main) is mirrored, not called: evalFile and bundleCmd are re-stated over pkg/bundle.BundledScriptsTo, syntax.EvaluateExpr and syntax.EvaluateBundleCtx",
